@@ -153,6 +153,15 @@ Proof.
     + reflexivity.
 Qed.
 
+Lemma skipn_app_cons {A} (a : list A) x b : skipn (S (length a)) (a ++ x :: b) = b.
+Proof. induction a as [|y a IH]; [reflexivity|]. cbn [length app]. exact IH. Qed.
+
+Lemma items_leaf_single c buf from : is_leaf c = true -> exists x, items c buf from = [x].
+Proof. destruct c; [|discriminate]. intros _. cbn [items]. eauto. Qed.
+
+Lemma psplit_leaf c buf from : is_leaf c = true -> psplit c buf from [c] [] (items c buf from).
+Proof. destruct c; [|discriminate]. intros _. apply ps_leaf. Qed.
+
 (* ---------- (2) correctness on complete tries ---------- *)
 Section GeSpec.
   Variable o : opts.
@@ -241,25 +250,30 @@ Section GeSpec.
       pose proof (si_ok s I) as Hok. rewrite Forall_forall in Hok.
       rewrite (kept_singleton s e I Hs) in Hit.
       set (lf := Leaf id ord (leaf_tail o e (s_from s)) (e_idx e)) in *.
-      inversion Hit as [|? x ? R [Hx _] HR Ek Ei]; subst. inversion HR; subst.
-      cbn [ge_rec]. fold lf. unfold leaf_res.
-      rewrite (leaf_cmp_spec e id ord (s_from s) (Hok e He) (proj2 Hag e He)).
-      pose proof (ps_leaf id ord (leaf_tail o e (s_from s)) (e_idx e) buf (s_from s)) as Hps. fold lf in Hps. rewrite <- Ei in Hps.
+      assert (items lf buf (s_from s) =
+              [(firstn (even_down (s_from s)) buf ++ tail_nibs (leaf_tail o e (s_from s)), lf)]) as Ei by reflexivity.
+      set (x := (firstn (even_down (s_from s)) buf ++ tail_nibs (leaf_tail o e (s_from s)), lf)) in Ei.
+      assert (fst x = e_nibs e) as Hx.
+      { rewrite Ei in Hit. inversion Hit as [|? ? ? ? [H _] _]; subst. exact H. }
+      assert (ge_rec q qn l lf (s_from s) = leaf_res q lf (s_from s) true) as -> by reflexivity.
+      unfold leaf_res.
+      pose proof (leaf_cmp_spec e id ord (s_from s) (Hok e He) (proj2 Hag e He)) as Hlc. fold lf in Hlc. rewrite Hlc.
+      pose proof (ps_leaf id ord (leaf_tail o e (s_from s)) (e_idx e) buf (s_from s)) as Hps. fold lf in Hps. rewrite Ei in Hps.
       destruct (lex_cmp qn (e_nibs e)) eqn:Ec; unfold ge_ok.
       + apply lex_cmp_eq in Ec. exists [], [x]. split; [exact Hps|]. split; [constructor|].
         exists x, []. split; [reflexivity|]. rewrite Hx, <- Ec, lex_cmp_refl. split; [discriminate|tauto].
       + exists [], [x]. split; [exact Hps|]. split; [constructor|].
         exists x, []. split; [reflexivity|]. rewrite Hx. split; [rewrite lex_cmp_antisym, Ec; discriminate|].
         split; [discriminate|]. intros E. rewrite E, lex_cmp_refl in Ec. discriminate.
-      + rewrite <- Ei. constructor; [|constructor]. unfold ilt. rewrite Hx, lex_cmp_antisym, Ec. reflexivity.
+      + rewrite Ei. constructor; [|constructor]. unfold ilt. rewrite Hx, lex_cmp_antisym, Ec. reflexivity.
     - (* an inner node *)
       pose proof Ht as Ht0. cbn [trie_of] in Ht. destruct Ht as (ib & labels & kids & b' & Hp & Hfst & Hkm).
       pose proof (inner_facts _ _ _ _ _ _ _ _ _ I Hp) as F.
       pose proof (children_ok o s big labels kids ch I F Hfst Hkm) as Hch.
       pose proof (scan_wf_of_trie o Hinner _ s Ht0 I) as Hwf.
       pose proof (items_spec o Hinner Hleaf _ s Ht0 I buf Hbuf) as Hit.
+      rewrite ge_rec_inner.
       set (t := Inner id big step pfx fc ch) in *.
-      rewrite ge_rec_inner. fold t.
       destruct (ge_advance_cases ib s big step pfx labels kids b' I Hp Hag) as [[Ea Hagw]|[[Ea Hall]|[Ea Hall]]]; rewrite Ea.
       2:{ (* the query is below every entry *)
         unfold ge_ok. exists [], (items t buf (s_from s)). split; [apply psplit_leftmost; exact Hwf|]. split; [constructor|].
@@ -295,9 +309,11 @@ Section GeSpec.
           destruct (label0_singleton o s big labels kids (mk_kid s big 0) n I F Hn) as (x0 & Hx0).
           { rewrite (if_kids_mk _ _ _ _ _ F), nth_error_map, Hn. reflexivity. }
           rewrite Hz in *.
-          destruct (singleton_leaf o c _ x0 Htc Hx0) as (id' & ord' & ->).
+          assert (is_leaf c = true) as Hlf by (destruct (singleton_leaf o c _ x0 Htc Hx0) as (id' & ord' & ->); reflexivity).
           rewrite (kept_singleton _ x0 Ik Hx0) in Hitc.
-          inversion Hitc as [|? x ? R [Hx _] HR Ek Ei]; subst. inversion HR; subst.
+          destruct (items_leaf_single c (b1 ++ label_nibs big 0) (w + label_width big 0) Hlf) as (x & Ei).
+          assert (fst x = e_nibs x0) as Hx.
+          { rewrite Ei in Hitc. inversion Hitc as [|? ? ? ? [H _] _]; subst. exact H. }
           assert (In x0 (s_ents s) /\ ent_label big w x0 = 0) as [Hx0s Hx0l].
           { assert (In x0 (s_ents (mk_kid s big 0))) as H by (rewrite Hx0; left; reflexivity).
             unfold mk_kid in H. cbn [s_ents] in H. apply filter_In in H. destruct H as [H1 H2]. apply Nat.eqb_eq in H2. auto. }
@@ -309,8 +325,8 @@ Section GeSpec.
           assert (skipn (w / 2) q = []) as ->.
           { apply skipn_all2. rewrite Heq. unfold l, qn. rewrite nibs_length. lia. }
           cbn [bytes_cmp map lex_cmp]. unfold ge_ok.
-          eexists [], _. split; [rewrite Ei; apply ps_leaf|]. split; [constructor|].
-          rewrite <- Ei. exists x, []. split; [reflexivity|]. rewrite Hx, Eq0, lex_cmp_refl. split; [discriminate|tauto].
+          exists [], [x]. split; [rewrite <- Ei; apply psplit_leaf; exact Hlf|]. split; [constructor|].
+          exists x, []. split; [reflexivity|]. rewrite Hx, Eq0, lex_cmp_refl. split; [discriminate|tauto].
         - assert (lbq <> 0) as Hnz by (intros Hz; apply Hne; apply (label_zero_iff big qn w Hwl); exact Hz).
           assert (label_width big lbq = wsize big) as Hwd by (destruct lbq; [congruence|reflexivity]).
           assert (s_from (mk_kid s big lbq) = w + wsize big) as Hfk by (cbn [mk_kid s_from]; fold w; rewrite Hwd; reflexivity).
@@ -320,7 +336,6 @@ Section GeSpec.
           + rewrite Hfk, <- Hwd. apply agree_child_buf; [exact I|exact Htwo|exact Hb1]. }
       (* walk over the children *)
       pose proof (if_asc _ _ _ _ _ F) as Hasc. rewrite <- Hfst in Hasc.
-      unfold ge_ok. rewrite items_inner. fold b1. rewrite Hpe. fold w.
       assert (forall pre rest, ch = pre ++ rest ->
                 Forall ilt (kids_items big b1 w pre) ->
                 match ge_go t lbq k rest with
@@ -335,8 +350,7 @@ Section GeSpec.
           assert (firstn (length pre) ch = pre) as Hfirst.
           { rewrite Ech, firstn_app, Nat.sub_diag, firstn_all. cbn. apply app_nil_r. }
           assert (skipn (S (length pre)) ch = rest) as Hskip.
-          { rewrite Ech. replace (S (length pre)) with (length pre + 1) by lia. rewrite <- skipn_skipn.
-            rewrite skipn_app, Nat.sub_diag, skipn_all. reflexivity. }
+          { rewrite Ech. apply skipn_app_cons. }
           pose proof (proj1 (Forall_forall _ _) Hch _ Hin) as Hc. pose proof (proj1 (Forall_forall _ _) Hkid _ Hin) as [Hitc Hwfc].
           cbn [fst snd] in Hc, Hitc, Hwfc.
           pose proof (co_inv _ _ _ _ _ Hc) as Ik. cbn [fst] in Ik.
@@ -352,7 +366,7 @@ Section GeSpec.
             specialize (IHr (pre ++ [(x, c)])). rewrite <- app_assoc in IHr. cbn [app] in IHr. apply IHr; [exact Ech|].
             rewrite kids_items_app. apply Forall_app. split; [exact Hpre|].
             unfold kids_items. cbn [flat_map fst snd]. rewrite app_nil_r.
-            eapply items_lt; [exact Hitc|]. apply (kid_entries_lt o qn q16); assumption.
+            eapply items_lt; [exact Hitc|]. apply (kid_entries_lt qn q16 qeven); assumption.
           + destruct (Nat.eqb_spec x lbq) as [Heq|Hne].
             * subst x. specialize (Hk c Hin). destruct (k c) as [p eq|].
               -- destruct Hk as (B' & A' & Hp' & HB' & HA').
@@ -367,27 +381,26 @@ Section GeSpec.
                  ++ exact Hpre'.
                  ++ assert (In (y, c') ch) as Hin' by (rewrite Ech; apply in_or_app; right; right; left; reflexivity).
                     pose proof (proj1 (Forall_forall _ _) Hkid _ Hin') as [Hitc' Hwfc']. cbn [fst snd] in Hitc', Hwfc'.
-                    pose proof (ps_inner id big step pfx fc ch buf (s_from s) (S (length pre)) y c'
-                                         (leftmost_path c') [] _) as Hps'.
-                    fold b1 t in Hps'. rewrite Hpe in Hps'. fold w in Hps'.
                     assert (nth_error ch (S (length pre)) = Some (y, c')) as Hnth'.
                     { rewrite Ech, nth_error_app2 by lia. replace (S (length pre) - length pre) with 1 by lia. reflexivity. }
                     assert (firstn (S (length pre)) ch = pre ++ [(lbq, c)]) as Hfirst'.
                     { rewrite Ech. replace (S (length pre)) with (length pre + 1) by lia.
                       rewrite firstn_app_2. reflexivity. }
                     assert (skipn (S (S (length pre))) ch = rest') as Hskip'.
-                    { rewrite Ech. replace (S (S (length pre))) with (length pre + 2) by lia. rewrite <- skipn_skipn.
-                      rewrite skipn_app, Nat.sub_diag, skipn_all. reflexivity. }
-                    rewrite Hfirst', Hskip' in Hps'.
-                    eexists _, _. split; [apply Hps'; [exact Hnth'|apply psplit_leftmost; exact Hwfc']|].
-                    split; [rewrite app_nil_r; exact Hpre'|].
+                    { rewrite Ech. change ((lbq, c) :: (y, c') :: rest') with ([(lbq, c)] ++ (y, c') :: rest').
+                      rewrite app_assoc. replace (S (S (length pre))) with (S (length (pre ++ [(lbq, c)]))) by (rewrite app_length; cbn; lia).
+                      apply skipn_app_cons. }
+                    eexists _, _. split; [unfold t; eapply ps_inner; [exact Hnth'|apply psplit_leftmost; rewrite Hpe; exact Hwfc']|].
+                    fold b1. rewrite Hpe, Hfirst', Hskip', app_nil_r. fold w. split; [exact Hpre'|].
                     eapply items_gt_head; [exact Hitc'| |apply items_nonempty; exact Hwfc'].
-                    apply (kid_entries_gt o qn q16); [exact I|exact Hagw|]. fold w lbq. apply (Hright y c'). left; reflexivity.
+                    apply (kid_entries_gt qn q16 qeven); [exact I|exact Hagw|]. fold w lbq. apply (Hright y c'). left; reflexivity.
             * (* right of the query: the first item of this child is the answer *)
               eexists _, _. split; [apply Hps; [exact Hnth|apply psplit_leftmost; exact Hwfc]|].
               split; [rewrite app_nil_r; exact Hpre|].
               eapply items_gt_head; [exact Hitc| |apply items_nonempty; exact Hwfc].
-              apply (kid_entries_gt o qn q16); [exact I|exact Hagw|]. fold w lbq. lia. }
-      specialize (Hgo [] ch eq_refl (Forall_nil _)). cbn [app] in Hgo. exact Hgo.
+              apply (kid_entries_gt qn q16 qeven); [exact I|exact Hagw|]. fold w lbq. lia. }
+      specialize (Hgo [] ch eq_refl (Forall_nil _)). cbn [app] in Hgo.
+      unfold ge_ok. destruct (ge_go t lbq k ch); [exact Hgo|].
+      unfold t. rewrite items_inner. fold b1. rewrite Hpe. exact Hgo.
   Qed.
 End GeSpec.
